@@ -292,7 +292,7 @@ func buildReplayTest(eng *Engine, ct *Contract, nr *namedResult, lens map[string
 		t := p.Type()
 		var lit string
 		if pt, ok := t.Underlying().(*types.Pointer); ok {
-			if isModified(ct, i) {
+			if isModified(ct, i) && ct.Recv != "any" {
 				lit = "new(" + relType(pt.Elem()) + ")"
 			} else {
 				l, ok := build(p.Name(), pt.Elem())
